@@ -3,8 +3,8 @@ package main
 // E7: primitive effects, reachability over the resolved call graph, who-may-call.
 
 import (
-	"go/types"
 	"go/constant"
+	"go/types"
 	"sort"
 	"strings"
 
